@@ -30,6 +30,57 @@ PROPERTIES = {
         "assumptions": COMMON_ASSUMPTIONS,
         "tests": [{"test": "TestC02History", "quick": 400, "thorough": 48000}],
     },
+    "C03": {
+        "level": "fault_enumeration",
+        "rule": "LAB world (orbiter keeper built from public constructors over the real bank/CCTP/warp/ICS-20, every dependency wrapped): "
+                "rapid draws a payload shape (route x action order incl. a denomination-changing test action x 0-3 fees x dust x passthrough); "
+                "the fault-free run records the ordered fault sites actually reached (sweep, wrapped ICS-20 app, each fee send, swap, fee "
+                "event, Hyperlane token query, bridge call, final event) and must be a success whose call record shows every fund movement "
+                "completed; then EVERY single site and EVERY ordered pair of sites is failed in turn (exhaustive per shape) and the ack "
+                "must be an error ack. PROD world: 13 naturally occurring failure causes (FTF blacklist/pause, CCTP burn limit/unknown "
+                "domain/burning paused, Hyperlane unknown domain/token/other-denom token, blocked recipient, short escrow, receive disabled): "
+                "error ack, or a success whose whole-ledger delta is exactly the model's. Non-trivial = a faulted run whose fault fired / a "
+                "natural failure; distinct by (shape, fault tuple).",
+        "assumptions": COMMON_ASSUMPTIONS + ["the LAB world duplicates the wiring of depinject.go (the wiring itself is exercised by the PROD-world checks)",
+                                             "statistics failures are the one documented exception and are not a fault site"],
+        "tests": [
+            {"test": "TestC03Faults", "quick": 60, "thorough": 4000},
+            {"test": "TestC03Natural", "quick": 600, "thorough": 40000},
+        ],
+    },
+    "C05": {
+        "level": "exploration",
+        "rule": "LAB world (recorded requests): rapid draws payloads valid by construction over every attribute value of the three routes, "
+                "all action orders incl. a denomination-changing test action, amounts to 2^256-1; whenever a bridge call is recorded it must be "
+                "the only one, on the route the identifier names, and equal the payload field by field (CCTP: From/Amount/BurnToken/domain/"
+                "mint recipient/caller and the WithCaller variant iff a caller is given; warp: Sender/TokenId/domain/Recipient/Amount/"
+                "CustomHookId (nil iff empty)/GasLimit/MaxFee/CustomHookMetadata; bank: From/To/coin) with the model's post-action coin. "
+                "The (protocol id in {-1,0..6,2^31-1}) x (attribute type) matrix and the (action id) x (attribute type) matrix are ENUMERATED "
+                "exhaustively in numeric and symbolic spelling: matching cells succeed on the named route, all others are refused with no "
+                "bridge call. MsgReplaceDepositForBurn: recorded CCTP request has From = orbiter and the four byte fields unchanged. "
+                "PROD world: DepositForBurn/MessageSent(parsed)/EventSendRemoteTransfer events equal the payload, and a REAL replacement "
+                "(message attested with the harness attester key) carries the new recipient/caller and the original nonce/amount. "
+                "Non-trivial = a transfer whose request was recorded / a matrix cell / a replacement; distinct by case.",
+        "assumptions": COMMON_ASSUMPTIONS + ["LAB duplicates the wiring of depinject.go; the routing by identifier of the wired chain is checked on the PROD stack by the matrix test"],
+        "tests": [
+            {"test": "TestC05Request", "quick": 1500, "thorough": 120000},
+            {"test": "TestC05Matrix", "kind": "plain", "quick": 1, "thorough": 1},
+            {"test": "TestC05Replace", "quick": 300, "thorough": 20000},
+            {"test": "TestC05Events", "quick": 400, "thorough": 40000},
+        ],
+    },
+    "C06": {
+        "level": "exploration",
+        "rule": "LAB world with two real action controllers registered (fee, and a denomination-changing test controller under ACTION_SWAP): "
+                "rapid draws every order of the registered actions ([], [fee], [swap], [fee,swap], [swap,fee]) and repeated identifiers "
+                "([fee,fee], [swap,swap], [fee,swap,fee], [swap,fee,swap]), fee lists, amounts up to 2^250, all three routes (a Hyperlane token "
+                "for the swap output exists). Oracle: the recorded action calls (each fee send with recipient/amount/denom, each swap input) equal, "
+                "in order, the reference model's fold of the running coin; the recorded bridge request carries exactly the final coin; whole-ledger "
+                "delta and the two statistics entries equal the model; a repeated identifier => error ack with NO action call executed. "
+                "Non-trivial = >= 2 actions or a denomination change or a repeated identifier; distinct by case.",
+        "assumptions": COMMON_ASSUMPTIONS + ["the swap controller is the harness's own (the chain registers none); LAB never deposits its output denom on the orbiter account"],
+        "tests": [{"test": "TestC06Orders", "quick": 1500, "thorough": 150000}],
+    },
     "C08": {
         "level": "exploration",
         "rule": "rapid draws histories of the four forwarder admin messages (batches of 0-101 ids, duplicates, ids already present/absent, "
